@@ -158,9 +158,12 @@ def gen_case(seed, tier='quick'):
                                'value': worlds.enc(c04.new_value(rng))}
         if faulty and rng.random() < 0.45:
             k = rng.choice(['eio', 'enospc', 'torn', 'short', 'short',
-                            'interrupt', 'open', 'close'])
+                            'interrupt', 'open', 'close', 'stack'])
             if k in ('open', 'close'):
                 op['fault'] = {'kind': k}
+            elif k == 'stack':
+                op['fault'] = {'kind': 'stack', 'depth': rng.choice(
+                    [600, 750, 850, 900, 930, 950])}
             elif k == 'interrupt':
                 op['fault'] = {'kind': 'interrupt',
                                'frac': round(rng.uniform(0.0, 1.1), 3)}
@@ -451,6 +454,8 @@ def _run(case, fs, amb):
                     wf = {'kind': 'eio', 'at': fault['at'],
                           'errno': fault.get('errno', 5),
                           'partial': fault.get('partial', False)}
+                elif fault['kind'] == 'stack':
+                    pass
                 else:
                     # size of a fault-free dry run decides the byte quota
                     fs.reset_op(bufsize=op.get('bufsize'))
@@ -473,6 +478,14 @@ def _run(case, fs, amb):
                     except RuntimeError:
                         out = outcome_of(model.persist_to_json_file, path)
                     bump('probe:persist_from_exception_handler')
+                elif fault is not None and fault['kind'] == 'stack':
+                    # the application saves from deep inside its own
+                    # recursion: little interpreter stack is left
+                    from .c06 import call_deep
+                    out = outcome_of(call_deep, fault['depth'],
+                                     model.persist_to_json_file, path)
+                    if out[0] == 'exc' and out[1] == 'RecursionError':
+                        fs.fired('low_stack')
                 else:
                     out = outcome_of(model.persist_to_json_file, path)
             if st.fired == 'interrupt':
@@ -511,7 +524,7 @@ def _run(case, fs, amb):
                     bump('probe:persist_interrupted')
                 elif out[0] == 'exc' and not any(
                         f in ('write_eio', 'write_enospc', 'open_error',
-                              'close_error') for f in fired):
+                              'close_error', 'low_stack') for f in fired):
                     viol = fail('persist-raised', seq, path=path, outcome=out,
                                 state=state)
                 else:
